@@ -50,7 +50,8 @@ extern int mpt_mapping_add(MPT_STRUCT(array) *arr, const MPT_STRUCT(mapping) *ad
 		map[i].src.state |= add->src.state;
 		return i+1;
 	}
-	if (!(map = mpt_array_append(arr, sizeof(*map), 0))) {
+	/* array may have typed content (C++ typed_array) */
+	if (!(map = mpt_array_slice(arr, len * sizeof(*map), sizeof(*map)))) {
 		return -1;
 	}
 	*map = *add;
